@@ -342,6 +342,37 @@ def _eval_rotcell(case):
     return vs, nev, nt, {}
 
 
+def _eval_pivot(case):
+    """iterables.pivot(v, -k) is the k-step counter-clockwise shift of a per-corner vector
+    (entry n moves to (n+k) mod 6) for the rotation numbers HexBlock.rotate produces (0..6)."""
+    import numpy as np
+
+    from armi.utils import iterables
+
+    vs = []
+    nev = nt = 0
+    base = [[11.0, 12.0, 13.0, 14.0, 15.0, 16.0], ["a", "b", "c", "d", "e", "f"], [[1, -1], [2, -2], [3, -3], [4, -4], [5, -5], [6, -6]]]
+    for bi, v in enumerate(base):
+        for asarray in (False, True):
+            if asarray and isinstance(v[0], str):
+                continue
+            for k in range(0, 7):
+                nev += 1
+                nt += 1 if k % 6 else 0
+                src = np.array(v) if asarray else list(v)
+                got = iterables.pivot(src, -k)
+                got = got.tolist() if hasattr(got, "tolist") else list(got)
+                want = [None] * 6
+                for n in range(6):
+                    want[(n + k) % 6] = v[n]
+                after = src.tolist() if hasattr(src, "tolist") else list(src)
+                if got != want or after != v:
+                    kw = dict(case)
+                    kw.update(vector=bi, asarray=asarray, k=k)
+                    vs.append(core.viol("c08/pivot-shift", "pivot(%s, %d) = %s, expected %s (input afterwards %s)" % (v, -k, got, want, after), kw))
+    return vs, nev, nt, {}
+
+
 # ---------------------------------------------------------------------------------------------
 # Part 1: Cartesian quarter core
 
@@ -439,13 +470,15 @@ def inits(ctx):
     out = []
     for rings in (1, 2, 3):
         for pcu in (False, True):
-            for variant in ("blueprint", "mixed"):
+            for variant in ("blueprint", "mixed", "auto"):
+                if variant == "auto" and rings == 1:
+                    continue  # orientBlocks needs multiplicities {1, N}
                 for via in ("block", "assembly"):
                     out.append(
                         {
                             "rings": rings,
                             "pinCornersUp": pcu,
-                            "pinPitch": [1.0, 1.23, 1.1][(rings + s) % 3],
+                            "pinPitch": [1.0, 1.23, 1.1][(rings + s) % 3] if variant != "auto" else AUTO_PITCH,
                             "variant": variant,
                             "via": via,
                             "disp": [0.3 + 0.01 * (s % 5), -0.7],
@@ -457,9 +490,33 @@ def inits(ctx):
     return out
 
 
+AUTO_PITCH = 1.09 + 0.1  # cold clad od + wire od: the pin pitch orientBlocks derives
+
+
+def _spec_auto(init):
+    """No pin lattice in the blueprint: multiplicities {1, N}; the pin grid is made by orientBlocks."""
+    from mcverif import build
+
+    n = float(1 + 3 * init["rings"] * (init["rings"] - 1))
+    spec = build.hex_spec(rings=2, pins=False, third=False, two_designs=False, sfp=False)
+    spec["blocks"]["fuel"] = {
+        "components": [
+            build.comp("fuel", "Circle", "UZr", 25.0, 600.0, id=0.0, od=0.86, mult=n),
+            build.comp("clad", "Circle", "HT9", 25.0, 470.0, id=1.0, od=1.09, mult="fuel.mult"),
+            build.comp("wire", "Helix", "HT9", 25.0, 450.0, axialPitch=30.0, helixDiameter=1.19, id=0.0, od=0.1, mult="fuel.mult"),
+            build.comp("coolant", "DerivedShape", "Sodium", 450.0, 450.0),
+            build.comp("duct", "Hexagon", "HT9", 25.0, 450.0, ip=16.0, op=16.6, mult=1.0),
+            build.comp("intercoolant", "Hexagon", "Sodium", 450.0, 450.0, ip="duct.op", op=16.75, mult=1.0),
+        ]
+    }
+    return spec
+
+
 def _spec(init):
     from mcverif import build
 
+    if init["variant"] == "auto":
+        return _spec_auto(init)
     rings = init["rings"]
     spec = build.hex_spec(rings=2, pins=True, third=False, two_designs=False, sfp=False)
     contents = {c: "F" for c in build.full_core_cells(rings)}
@@ -475,11 +532,23 @@ def _spec(init):
     return spec
 
 
+def _bpkey(init):
+    return json.dumps([init["variant"] == "auto", init["rings"], init["pinCornersUp"], init["pinPitch"]])
+
+
+_BNAMES = {}
+
+
 def _boundary_names(b):
+    """Names of all parameters located at CORNERS or EDGES (definitions are static per block class)."""
     from armi.reactor.parameters import ParamLocation
 
-    names = list(b.p.paramDefs.atLocation(ParamLocation.CORNERS).names) + list(b.p.paramDefs.atLocation(ParamLocation.EDGES).names)
-    return sorted(set(names))
+    if type(b) not in _BNAMES:
+        names = list(b.p.paramDefs.atLocation(ParamLocation.CORNERS).names) + list(b.p.paramDefs.atLocation(ParamLocation.EDGES).names)
+        if len(set(names)) < 4:
+            raise RuntimeError("expected several CORNERS/EDGES parameters, found %s" % names)
+        _BNAMES[type(b)] = sorted(set(names))
+    return _BNAMES[type(b)]
 
 
 def _fresh(init):
@@ -491,12 +560,16 @@ def _fresh(init):
     from armi.reactor import assemblies, blocks, grids
     from mcverif import build
 
-    key = json.dumps([init["rings"], init["pinCornersUp"], init["pinPitch"]])
+    key = _bpkey(init)
     if key not in _BP:
         _BP.clear()
         _BP[key] = build.blueprints(_spec(init))
     random.seed(0)
     a = _BP[key].constructAssem(build.settings(), name="igniter fuel")
+    if init["variant"] == "auto":
+        # the path every assembly placed in a core takes: pin grids from multiplicities, opposite
+        # orientation to the system grid, one MultiIndexLocation shared by all pin components
+        a.orientBlocks(grids.HexGrid.fromPitch(16.75, numRings=3) if init["pinCornersUp"] else None)
     if not isinstance(a, assemblies.HexAssembly) or not isinstance(a[0], blocks.HexBlock) or a[0].spatialGrid is None:
         raise RuntimeError("generator did not give a HexAssembly with a pin grid")
     for bi, b in enumerate(a):
@@ -608,8 +681,8 @@ def _diff_obs(got, want):
     ds = []
     for bi, (g, w) in enumerate(zip(got, want)):
         where = "block %d (%s)" % (bi, w["name"])
-        if [c["type"] for c in g["comps"]] != [c["type"] for c in w["comps"]]:
-            ds.append(("child-locations", "%s: locator types %s, expected %s" % (where, [c["type"] for c in g["comps"]], [c["type"] for c in w["comps"]])))
+        if [(c["name"], c["type"]) for c in g["comps"]] != [(c["name"], c["type"]) for c in w["comps"]]:
+            ds.append(("child-locations", "%s: children/locator types %s, expected %s" % (where, [(c["name"], c["type"]) for c in g["comps"]], [(c["name"], c["type"]) for c in w["comps"]])))
         else:
             for cg, cw in zip(g["comps"], w["comps"]):
                 if cg.get("idx") != cw.get("idx"):
@@ -678,6 +751,33 @@ def _premise(o0, init):
     return None
 
 
+_OBS = {}  # pure-data observations of deterministic constructions, per worker
+
+
+def _initial_obs(init):
+    key = "0|" + json.dumps(init, sort_keys=True)
+    if key not in _OBS:
+        if len(_OBS) > 400:
+            _OBS.clear()
+        _OBS[key] = _observe(_fresh(init))
+    return _OBS[key]
+
+
+def _single_rotation_obs(init, s):
+    """Observation of a fresh object after ONE rotation by s x 60 degrees through init['via'].
+    If HexAssembly.rotate refuses the (valid) angle the blocks are rotated one by one instead."""
+    key = "1|%d|" % s + json.dumps(init, sort_keys=True)
+    if key not in _OBS:
+        a2 = _fresh(init)
+        out = _rotate(a2, init["via"], _angle(s))
+        if out != "ok":
+            a2 = _fresh(init)
+            for b in a2:
+                b.rotate(_angle(s))
+        _OBS[key] = (out, _observe(a2))
+    return _OBS[key]
+
+
 def _eval_hist(case):
     init, hist = case["init"], case["hist"]
     via = init["via"]
@@ -687,8 +787,7 @@ def _eval_hist(case):
     def bad(key, msg):
         vs.append(core.viol("c08/" + key, msg, case))
 
-    a0 = _fresh(init)
-    o0 = _observe(a0)
+    o0 = _initial_obs(init)
     pm = _premise(o0, init)
     if pm:
         bad("block-premise", "generated block does not match the assumed pin lattice: " + pm)
@@ -714,14 +813,9 @@ def _eval_hist(case):
         if vs:
             return vs, 1, 1, cnt
     # (2) differential: one rotation by the summed angle on a fresh object
-    a2 = _fresh(init)
-    out = _rotate(a2, via, _angle(s))
+    out, o2 = _single_rotation_obs(init, s)
     if out != "ok":
         vs.append(core.viol(REFUSE_KEY, "HexAssembly.rotate(math.radians(%d)) refused with ValueError although the angle is a multiple of 60 degrees (sum of history %s)" % (60 * s, hist), case))
-        a2 = _fresh(init)
-        for bi in sorted(rotated):
-            a2[bi].rotate(_angle(s))
-    o2 = _observe(a2)
     o1 = _observe(a1)
     for aspect, text in _diff_obs(o1, o2):
         bad("block-rotate-compose-" + aspect, "init %s: history %s (x60 deg, via %s) differs from a single rotation by %d deg: %s" % (_short(init), hist, via, 60 * s, text))
@@ -772,7 +866,7 @@ def _eval_refuse(case):
 
 # ---------------------------------------------------------------------------------------------
 
-_EVAL = {"hexsym": _eval_hexsym, "hexrot": _eval_hexrot, "rotcell": _eval_rotcell, "cartsym": _eval_cartsym, "hist": _eval_hist, "accept": _eval_accept, "refuse": _eval_refuse}
+_EVAL = {"pivot": _eval_pivot, "hexsym": _eval_hexsym, "hexrot": _eval_hexrot, "rotcell": _eval_rotcell, "cartsym": _eval_cartsym, "hist": _eval_hist, "accept": _eval_accept, "refuse": _eval_refuse}
 
 
 def evaluate(case):
@@ -797,6 +891,7 @@ def cases(ctx):
         for p in pitches[:2]:
             out.append({"kind": "hexrot", "cornersUp": cu, "pitch": p, "rings": n, "kmax": B["kmax"], "compmax": B["compmax"]})
     out.append({"kind": "rotcell", "rings": n})
+    out.append({"kind": "pivot"})
     for thr in (True, False):
         suffix = " through center assembly" if thr else ""
         for wh in ([1.0, 1.0], [1.26 + 0.1 * (s % 3), 1.26 + 0.1 * (s % 3)]):
@@ -835,7 +930,8 @@ def run(ctx):
     cs = cases(ctx)
     # keep the cases of one blueprint together (the per-worker blueprint cache holds one design)
     cs = ctx.order(cs)
-    cs.sort(key=lambda c: (0, "") if "init" not in c else (1, json.dumps([c["init"]["rings"], c["init"]["pinCornersUp"], c["init"]["pinPitch"]])))
+    rank = {"accept": 1, "refuse": 2, "hist": 3}
+    cs.sort(key=lambda c: (0, "") if "init" not in c else (rank[c["kind"]], _bpkey(c["init"])))
     res = core.pmap(MOD, "_evaluate_counted", cs)
     ev = nt = 0
     for c, (vs, n, t, cnt) in zip(cs, res):
@@ -846,6 +942,8 @@ def run(ctx):
         for k, v in cnt.items():
             ctx.count(k, v)
         ctx.add_violations(vs)
+    # report the simplest witness of every class, independently of the exploration order
+    ctx.violations.sort(key=lambda v: (len(json.dumps(v["case"], sort_keys=True)), json.dumps(v["case"], sort_keys=True)))
     B = BOUNDS["quick" if ctx.quick else "thorough"]
     small = [c for c in cs if c["kind"] in ("hexsym", "cartsym")][:2] + [c for c in cs if c["kind"] == "hist" and len(c["hist"]) == B["hist_len"]][:2] + [c for c in cs if c["kind"] == "refuse"][:1]
     ctx.samples = small
